@@ -328,6 +328,12 @@ def trace():
             if kind is None:
                 if all(x is True for x in rets) and not rec.reads:
                     kind = 0
+                elif all(bool(x) for x in rets) and all(
+                        x[0] in ("data", "pres") for x in rec.reads):
+                    # never vetoes, but its (non-boolean) result is hashed:
+                    # an identifier of optional feature ingredients
+                    kind = 3
+                    extra = list(rec.reads)
                 else:
                     raise TraceError("req_func of %r not understood" % r)
             else:
